@@ -94,6 +94,10 @@ fn sequences(ctx: &mut Ctx, max_len: usize, alpha: &[String]) {
 fn named(ctx: &mut Ctx) {
     let mut texts: Vec<String> = vec![];
     let big = |k: usize| format!("1{}", "0".repeat(k));
+    // 10^k - 1 (all nines) just beyond each type's capacity: 29 digits for Decimal, 39 for Int
+    for t in ["d99999999999999999999999999999", "d-99999999999999999999999999999", "d80000000000000000000000000000", "i999999999999999999999999999999999999999", "[d79228162514264337593543950336]"] {
+        judge(ctx, t, "named-must-reject", Want::MustReject);
+    }
     for k in [39usize, 40, 60, 200] {
         texts.push(format!("i{}", big(k)));
         texts.push(format!("i-{}", big(k)));
@@ -196,6 +200,31 @@ fn escapes(ctx: &mut Ctx) {
     }
 }
 
+/// long tokens made of multi-byte characters in positions where they are a syntax error: whatever the parser
+/// does with the offending token in its error message (echo, excerpt, truncate) must respect char boundaries
+fn long_tokens_in_error_position(ctx: &mut Ctx) {
+    let mut k = 0usize;
+    for ch in ['é', '€', '\u{1F600}', 'x'] {
+        for n in (1..=40).chain((44..=260).step_by(3)) {
+            for pad in 0..4 {
+                k += 1;
+                if k % ctx.nshards != ctx.shard {
+                    continue;
+                }
+                let body: String = format!("{}{}", "a".repeat(pad), ch.to_string().repeat(n));
+                let ident: String = format!("z{}", "y".repeat(n + pad));
+                for t in [
+                    format!("[\"ok\" \"{body}\"]"), format!("a \"{body}\""), format!("\"{body}\" \"{body}\""), format!("// n\n@k: i1 \"{body}\";\ntrue"), format!("if x then \"y\" \"{body}\""),
+                    format!("\"{body}\\q\""), format!("\"\\q{body}\""), format!("// {body}\n// {body}\n@k: \"{body}\";\n\"{body}\" +"), format!("a {ident}"), format!("{ident} {ident}"),
+                    format!("//{}\n//\u{a0}{body}\n//\u{3000}\u{2003}{body}\ni1", &body), format!("\"{body}"), format!("{body}"),
+                ] {
+                    judge(ctx, &t, "long-multibyte-tokens-in-error-position", Want::NoPanic);
+                }
+            }
+        }
+    }
+}
+
 fn mutate(rng: &mut Rng, text: &str) -> String {
     let mut chars: Vec<char> = text.chars().collect();
     let n = 1 + rng.below(3);
@@ -287,6 +316,7 @@ fn run(ctx: &mut Ctx) {
     named(ctx);
     magnitudes(ctx);
     escapes(ctx);
+    long_tokens_in_error_position(ctx);
     let alpha = alphabet();
     match ctx.tier {
         Tier::Quick => sequences(ctx, 3, &alpha),
